@@ -119,6 +119,11 @@ def gen_cases(tier: str, seed: int):
     for second in ("insert_more", "new_table"):
         for keep in ("exception-kept", "retry-in-handler", "connection-kept", "nothing-kept"):
             yield {"kind": "two_blocks", "second": second, "keep": keep}
+    # an executemany that fails (in ways the connector does and does not translate) is followed by more committed work
+    for how in ("arity", "syntax", "missing_table", "conversion"):
+        em = ["CREATE TABLE T1 (ID INT, S VARCHAR(10)) COMMENT = 'first'", "INSERT INTO T1 VALUES (1, 'a')", f"#EXECUTEMANY_FAILS {how}", "INSERT INTO T1 VALUES (777, 'after')",
+              "CREATE TABLE AFTER_T (ID INT, NOTE VARCHAR(4)) COMMENT = 'made after'", "INSERT INTO AFTER_T VALUES (1, 'ok')"]
+        yield {"kind": "history", "history": em, "stride": 3 if tier == "quick" else 1, "offset": 1, "with_conn": False, "expect_rows": {"DB1.S1.T1": "(777, 'after')", "DB1.S1.AFTER_T": "(1, 'ok')"}}
     # a comment that is rolled back, followed by statements answered with the no-op status
     rb = ["CREATE TABLE T1 (ID INT, S VARCHAR(10)) COMMENT = 'first'", "INSERT INTO T1 VALUES (1, 'a')", "BEGIN", "COMMENT ON TABLE T1 IS 'never committed'",
           "ALTER TABLE T1 SET COMMENT = 'never committed either'", "ROLLBACK", "SET hv = 1", "ALTER TABLE T1 SET TAG cost = 'x'", "INSERT INTO T1 VALUES (2, 'b')"]
@@ -173,7 +178,7 @@ def _child_run(case_dir: str, db_dir: str, history: list[str], mode: str, kill_a
             return
         if ph == "before":
             calls["n"] += 1
-        if kill_at is not None and calls["n"] == kill_at and ph == phase:
+        if kill_at is not None and calls["n"] == kill_at and (ph == phase or (phase == "after" and ph == "error")):
             _journal(jpath, f"killing {ph} call {calls['n']}")
             os.kill(os.getpid(), signal.SIGKILL)
 
@@ -199,7 +204,21 @@ def _child_run(case_dir: str, db_dir: str, history: list[str], mode: str, kill_a
         for i, stmt in enumerate(history):
             c0 = calls["n"]
             calls["armed"] = True
-            if stmt.startswith("#WRITE_PANDAS"):
+            if stmt.startswith("#EXECUTEMANY_FAILS"):
+                # an executemany the application gets wrong in one of several ways; it catches the error and carries on
+                how = stmt.split()[1]
+                try:
+                    if how == "arity":
+                        cur.executemany("INSERT INTO T1 (ID, S) VALUES (%s, %s)", [(901, "a"), (902,)])
+                    elif how == "syntax":
+                        cur.executemany("INSERT INTO T1 (ID, S) VALUE (%s, %s)", [(903, "a"), (904, "b")])
+                    elif how == "missing_table":
+                        cur.executemany("INSERT INTO NO_SUCH_T18 (ID) VALUES (%s)", [(905,), (906,)])
+                    else:
+                        cur.executemany("INSERT INTO T1 (ID, S) VALUES (%s, %s)", [(907, "ok"), ("not a number", "x")])
+                except Exception:  # noqa: BLE001
+                    pass
+            elif stmt.startswith("#WRITE_PANDAS"):
                 import pandas as pd
 
                 import fakesnow.fakes as fakes
@@ -385,6 +404,11 @@ def run_case(case: dict, env: core.Env) -> None:
                 cands = [states[must_be]]
             if got in cands:
                 # an absolute expectation of the fixed histories: what a client reads after the whole history ran
+                if case.get("expect_rows") and must_be == len(history):
+                    for tbl, row in case["expect_rows"].items():
+                        if row not in got["rows"].get(tbl, {}):
+                            env.witness(f"C18/acknowledged-state-lost/absolute/{tag}", f"{fault}: a later process does not find {row} in {tbl}: {sorted(got['rows'].get(tbl, {}))}")
+                            return
                 if case.get("expect_comments") and must_be == len(history):
                     seen = rec.get("meta", {}).get("DB1", {}).get("comments")
                     if seen != case["expect_comments"]:
